@@ -72,4 +72,14 @@ theorem tables :
   simp only [conf, Own.blocks_cons, Own.blocks_nil, Own.paths_cons, Own.paths_nil, dry_walk_G, rule, eval]
   decide +kernel
 
+set_option maxRecDepth 100000 in
+theorem before_fork :
+    (trace false)[7]? = some (.openPath Own.devNull, .ok 6) ∧
+    (trace true)[7]? = some (.dupfd 5, .ok 6) ∧ (trace true)[8]? = some (.lseek 6, .ok 0) := by
+  unfold trace
+  rw [Own.mainP_eq, Own.mainP_eq]
+  unfold Own.mainK
+  simp only [conf, Own.blocks_cons, Own.blocks_nil, Own.paths_cons, Own.paths_nil, dry_walk_G, rule, eval]
+  decide +kernel
+
 end Mdsort.Proofs.FdsEx
